@@ -401,4 +401,154 @@ theorem rshB_x0_y_spec (A1 A2 C1 C2 : List Nat) (h1 h2 : Nat)
     · rw [lu', pow_succ]; exact hf.2.1
     · rw [lu', pow_succ]; exact hf.2.2
 
+/-! ### the x = 0 butterflies, all y -/
+
+theorem lshB_00 (i1 i2 : List Nat) :
+    butterfly_lshB i1 i2 0 0 = ((sumdiff_n i1 i2).1, (sumdiff_n i1 i2).2.1) := by
+  unfold butterfly_lshB; simp only [↓reduceIte]
+
+theorem rshB_00 (i1 i2 : List Nat) :
+    butterfly_rshB i1 i2 0 0 = ((sumdiff_n i1 i2).1, (sumdiff_n i1 i2).2.1, i1, i2) := by
+  unfold butterfly_rshB; simp only [↓reduceIte]
+
+theorem split_at (A : List Nat) (y : Nat) (hy : y ≤ A.length) :
+    ∃ A1 A2, A = A1 ++ A2 ∧ A1.length = A.length - y ∧ A2.length = y :=
+  ⟨A.take (A.length - y), A.drop (A.length - y), (List.take_append_drop _ _).symm, by simp, by simp; omega⟩
+
+theorem lshB_x0_spec (A C : List Nat) (h1 h2 y : Nat) (hA : Limbs (A ++ [h1])) (hC : Limbs (C ++ [h2]))
+    (hl : A.length = C.length) (hy : y < A.length)
+    (t1 : TopSmall (A ++ [h1])) (t2 : TopSmall (C ++ [h2])) :
+    ∃ ts tg us ug, butterfly_lshB (A ++ [h1]) (C ++ [h2]) 0 y = (ts ++ [tg], us ++ [ug]) ∧
+      ts.length = A.length ∧ us.length = A.length ∧ Limbs (ts ++ [tg]) ∧ Limbs (us ++ [ug]) ∧
+      rval (ts ++ [tg]) ≡ rval (A ++ [h1]) + rval (C ++ [h2]) [ZMOD pmod A.length] ∧
+      rval (us ++ [ug]) ≡ (rval (A ++ [h1]) - rval (C ++ [h2])) * (B : Int) ^ y [ZMOD pmod A.length] := by
+  by_cases hy0 : y = 0
+  · subst hy0
+    obtain ⟨ts, tg, us, ug, e1, e2, l1, l2, la, ld, r1, r2⟩ := sumdiff_full A C h1 h2 hA hC hl t1 t2
+    refine ⟨ts, tg, us, ug, by rw [lshB_00, e1, e2], l1, l2, la, ld, by rw [r1], by rw [r2]; simp⟩
+  · obtain ⟨A1, A2, eA, lA1, lA2⟩ := split_at A y (by omega)
+    obtain ⟨C1, C2, eC, lC1, lC2⟩ := split_at C y (by omega)
+    subst eA eC
+    simp only [List.length_append] at hl hy lA1 lC1
+    have hl1 : A1.length = C1.length := by omega
+    have hl2 : A2.length = C2.length := by omega
+    obtain ⟨ts, tg, us, ug, e, l1, l2, la, ld, r1, r2⟩ :=
+      lshB_x0_y_spec A1 A2 C1 C2 h1 h2 hA hC hl1 hl2 (by omega) (by omega) t1 t2
+    rw [lA2] at e
+    refine ⟨ts, tg, us, ug, e, by simp [l1], by simp [l2], la, ld, ?_, ?_⟩
+    · rw [modEq_pmod_iff]; refine ⟨-(sint h1 + sint h2), ?_⟩
+      rw [r1, rval_snoc, rval_snoc]; simp only [List.length_append, ← hl1, ← hl2]; ring
+    · rw [modEq_pmod_iff]
+      refine ⟨-(((val A2 : Int) - val C2) + (B : Int) ^ A2.length * (sint h1 - sint h2)), ?_⟩
+      rw [r2, rval_snoc, rval_snoc, val_append, val_append]
+      simp only [List.length_append, ← hl1, ← hl2, ← lA2]; push_cast
+      rw [pow_add]; ring
+
+/-- mpir_fft_butterfly: (s, t) = (a + b, (a - b)·2^(i·w)) -/
+theorem fft_butterfly_spec (A C : List Nat) (h1 h2 i w : Nat) (hA : Limbs (A ++ [h1])) (hC : Limbs (C ++ [h2]))
+    (hl : A.length = C.length) (hiw : i * w < 64 * A.length)
+    (t1 : TopSmall (A ++ [h1])) (t2 : TopSmall (C ++ [h2])) :
+    ∃ ss sg ts tg, fft_butterfly (A ++ [h1]) (C ++ [h2]) i w = (ss ++ [sg], ts ++ [tg]) ∧
+      ss.length = A.length ∧ ts.length = A.length ∧ Limbs (ss ++ [sg]) ∧ Limbs (ts ++ [tg]) ∧
+      rval (ss ++ [sg]) ≡ rval (A ++ [h1]) + rval (C ++ [h2]) [ZMOD pmod A.length] ∧
+      rval (ts ++ [tg]) ≡ (rval (A ++ [h1]) - rval (C ++ [h2])) * 2 ^ (i * w) [ZMOD pmod A.length] := by
+  have hd : i * w % 64 < 64 := Nat.mod_lt _ (by norm_num)
+  obtain ⟨ss, sg, us, ug, e, l1, l2, la, ld, r1, r2⟩ :=
+    lshB_x0_spec A C h1 h2 (i * w / 64) hA hC hl (by omega) t1 t2
+  obtain ⟨ts, tg, m1, m2, m3, m4⟩ := mul_2expmod_cong us ug (i * w % 64) ld (by omega) hd
+  refine ⟨ss, sg, ts, tg, ?_, l1, by rw [m2, l2], la, m3, r1, ?_⟩
+  · unfold fft_butterfly; simp only [e, m1]
+  · rw [l2] at m4
+    refine m4.trans ?_
+    have e2 : (2 : Int) ^ (i * w) = (B : Int) ^ (i * w / 64) * 2 ^ (i * w % 64) := by
+      rw [B_pow_two, ← pow_add]; congr 1; omega
+    rw [e2, ← mul_assoc]
+    exact Int.ModEq.mul_right _ r2
+
+/-- div_2expmod for every d < 64 (d = 0 copies); small top limbs stay small -/
+theorem div_2expmod_cong (xs : List Nat) (h d : Nat) (hx : Limbs (xs ++ [h])) (hn : 1 ≤ xs.length) (hd : d < 64)
+    (ht : TopSmall (xs ++ [h])) :
+    ∃ ys g, div_2expmod (xs ++ [h]) d = ys ++ [g] ∧ ys.length = xs.length ∧ Limbs (ys ++ [g]) ∧
+      rval (ys ++ [g]) * 2 ^ d ≡ rval (xs ++ [h]) [ZMOD pmod xs.length] ∧ TopSmall (ys ++ [g]) := by
+  by_cases hd0 : d = 0
+  · subst hd0
+    refine ⟨xs, h, by simp [div_2expmod], rfl, hx, by simp, ht⟩
+  · obtain ⟨ys, g, h1, h2, h3, h4, h5, h6⟩ := div_2expmod_spec xs h d hx hn (by omega) (by omega)
+    refine ⟨ys, g, h1, h2, h3, h4, ?_⟩
+    unfold TopSmall at ht ⊢; simp only [top_snoc] at ht ⊢
+    have ⟨_, hh⟩ := Limbs_snoc.mp hx
+    have hpos : (0 : Int) < 2 ^ d := by positivity
+    have h2d : (2 : Int) ≤ 2 ^ d := by
+      calc (2 : Int) = 2 ^ 1 := by norm_num
+        _ ≤ 2 ^ d := pow_le_pow_right₀ (by norm_num) (by omega)
+    have b1 : -2305843009213693952 ≤ sint h / 2 ^ d := by
+      apply Int.le_ediv_of_mul_le hpos; nlinarith
+    have b2 : sint h / 2 ^ d < 2305843009213693952 := by
+      apply Int.ediv_lt_of_lt_mul hpos; nlinarith
+    rw [← h2] at h5 h6
+    have tb := top_bounds ys g h3 (sint h / 2 ^ d - 1) (sint h / 2 ^ d) (le_of_lt h5) h6
+    omega
+
+theorem split_at' (C : List Nat) (y : Nat) (hy : y ≤ C.length) :
+    ∃ C1 C2, C = C1 ++ C2 ∧ C1.length = y ∧ C2.length = C.length - y :=
+  ⟨C.take y, C.drop y, (List.take_append_drop _ _).symm, by simp; omega, by simp⟩
+
+theorem rshB_x0_spec (A C : List Nat) (h1 h2 y : Nat) (hA : Limbs (A ++ [h1])) (hC : Limbs (C ++ [h2]))
+    (hl : A.length = C.length) (hn : 1 ≤ A.length) (hy : y ≤ A.length)
+    (t1 : TopSmall (A ++ [h1])) (t2 : TopSmall (C ++ [h2])) :
+    ∃ ts tg us ug, butterfly_rshB (A ++ [h1]) (C ++ [h2]) 0 y = (ts ++ [tg], us ++ [ug], A ++ [h1], C ++ [h2]) ∧
+      ts.length = A.length ∧ us.length = A.length ∧ Limbs (ts ++ [tg]) ∧ Limbs (us ++ [ug]) ∧
+      rval (ts ++ [tg]) * (B : Int) ^ y ≡ rval (A ++ [h1]) * (B : Int) ^ y + rval (C ++ [h2]) [ZMOD pmod A.length] ∧
+      rval (us ++ [ug]) * (B : Int) ^ y ≡ rval (A ++ [h1]) * (B : Int) ^ y - rval (C ++ [h2]) [ZMOD pmod A.length] := by
+  by_cases hy0 : y = 0
+  · subst hy0
+    obtain ⟨ts, tg, us, ug, e1, e2, l1, l2, la, ld, r1, r2⟩ := sumdiff_full A C h1 h2 hA hC hl t1 t2
+    refine ⟨ts, tg, us, ug, by rw [rshB_00, e1, e2], l1, l2, la, ld, by rw [r1]; simp, by rw [r2]; simp⟩
+  · obtain ⟨A1, A2, eA, lA1, lA2⟩ := split_at A y hy
+    obtain ⟨C1, C2, eC, lC1, lC2⟩ := split_at' C y (by omega)
+    subst eA eC
+    simp only [List.length_append] at hl hy lA1 lC2 hn
+    have hl1 : A1.length = C2.length := by omega
+    have hl2 : A2.length = C1.length := by omega
+    obtain ⟨ts, tg, us, ug, e, l1, l2, la, ld, r1, r2⟩ :=
+      rshB_x0_y_spec A1 A2 C1 C2 h1 h2 hA hC hl1 hl2 (by omega) t1 t2
+    rw [lA2] at e
+    refine ⟨ts, tg, us, ug, e, by simp [l1], by simp [l2], la, ld, ?_, ?_⟩
+    · rw [modEq_pmod_iff]; refine ⟨-(val C1 : Int), ?_⟩
+      rw [r1, rval_snoc (C1 ++ C2), val_append]
+      simp only [List.length_append, ← hl1, ← hl2, ← lA2]; push_cast
+      rw [pow_add]; ring
+    · rw [modEq_pmod_iff]; refine ⟨(val C1 : Int), ?_⟩
+      rw [r2, rval_snoc (C1 ++ C2), val_append]
+      simp only [List.length_append, ← hl1, ← hl2, ← lA2]; push_cast
+      rw [pow_add]; ring
+
+/-- mpir_ifft_butterfly: (s, t) = (a + b/2^(i·w), a - b/2^(i·w)) -/
+theorem ifft_butterfly_spec (A C : List Nat) (h1 h2 i w : Nat) (hA : Limbs (A ++ [h1])) (hC : Limbs (C ++ [h2]))
+    (hl : A.length = C.length) (hiw : i * w < 64 * A.length)
+    (t1 : TopSmall (A ++ [h1])) (t2 : TopSmall (C ++ [h2])) :
+    ∃ ss sg ts tg i2', ifft_butterfly (A ++ [h1]) (C ++ [h2]) i w = (ss ++ [sg], ts ++ [tg], i2') ∧
+      ss.length = A.length ∧ ts.length = A.length ∧ Limbs (ss ++ [sg]) ∧ Limbs (ts ++ [tg]) ∧
+      rval (ss ++ [sg]) * 2 ^ (i * w) ≡ rval (A ++ [h1]) * 2 ^ (i * w) + rval (C ++ [h2]) [ZMOD pmod A.length] ∧
+      rval (ts ++ [tg]) * 2 ^ (i * w) ≡ rval (A ++ [h1]) * 2 ^ (i * w) - rval (C ++ [h2]) [ZMOD pmod A.length] := by
+  have hd : i * w % 64 < 64 := Nat.mod_lt _ (by norm_num)
+  have hn : 1 ≤ A.length := by omega
+  obtain ⟨ds, dg, d1, d2, d3, d4, d5⟩ := div_2expmod_cong C h2 (i * w % 64) hC (by omega) hd t2
+  obtain ⟨ss, sg, ts, tg, e, l1, l2, la, ld, r1, r2⟩ :=
+    rshB_x0_spec A ds h1 dg (i * w / 64) hA d3 (by omega) hn (by omega) t1 d5
+  refine ⟨ss, sg, ts, tg, ds ++ [dg], ?_, l1, l2, la, ld, ?_, ?_⟩
+  · unfold ifft_butterfly; simp only [d1, e]
+  all_goals
+    have e2 : (2 : Int) ^ (i * w) = (B : Int) ^ (i * w / 64) * 2 ^ (i * w % 64) := by
+      rw [B_pow_two, ← pow_add]; congr 1; omega
+    rw [← hl] at d4
+  · have step1 := r1.mul_right (2 ^ (i * w % 64))
+    rw [add_mul] at step1
+    rw [e2, ← mul_assoc, ← mul_assoc]
+    exact step1.trans ((Int.ModEq.refl _).add d4)
+  · have step1 := r2.mul_right (2 ^ (i * w % 64))
+    rw [sub_mul] at step1
+    rw [e2, ← mul_assoc, ← mul_assoc]
+    exact step1.trans ((Int.ModEq.refl _).sub d4)
+
 end Mpir.Fft
